@@ -168,6 +168,24 @@ benign("pretrigger-early-return-single-frame", "recordPreTriggerFrames returns a
 benign("handler-marker-switch", "handleConn tests the marker with a switch statement (correct refactor)",
        (MAIN, "\t\tif message == clearBuffer {\n\t\t\tlog.Print(\"clearing motion buffer\")\n\t\t\tprocessor.Reset(headerInfo)\n\t\t\tcontinue\n\t\t}\n", "\t\tswitch message {\n\t\tcase clearBuffer:\n\t\t\tlog.Print(\"clearing motion buffer\")\n\t\t\tprocessor.Reset(headerInfo)\n\t\t\tcontinue\n\t\t}\n", False))
 
+benign("handler-verbose-log-before-process", "handleConn logs each frame when verbose, between the read and Process (no frame skipped)",
+       (MAIN, "\t\terr = processor.Process(rawFrame)\n", "\t\tif conf.Verbose && totalFrames < 10 {\n\t\t\tlog.Printf(\"frame %d read\", totalFrames)\n\t\t}\n\t\terr = processor.Process(rawFrame)\n", False))
+
+benign("writer-reader-logs-slow-disk", "thermal-writer reader logs when the queue is long, then forwards the frame as before",
+       (TW, "\t\twriteFrames <- frame\n", "\t\tif len(writeFrames) > inFlight/2 {\n\t\t\tlog.Print(\"disk is falling behind\")\n\t\t}\n\t\twriteFrames <- frame\n", False))
+
+benign("writer-goroutine-ok-first", "writer goroutine tests the open channel first (if ok {...} else {close; return})",
+       (TW, "\t\t\tif !ok {\n\t\t\t\tbuilder.Close()\n\t\t\t\treturn\n\t\t\t}\n\t\t\tif err := writeFrame(builder, frame); err != nil {\n\t\t\t\tpanic(err)\n\t\t\t}\n\t\t\toutFrames <- frame // Return the frame to be reused\n",
+        "\t\t\tif ok {\n\t\t\t\tif err := writeFrame(builder, frame); err != nil {\n\t\t\t\t\tpanic(err)\n\t\t\t\t}\n\t\t\t\toutFrames <- frame // Return the frame to be reused\n\t\t\t} else {\n\t\t\t\tbuilder.Close()\n\t\t\t\treturn\n\t\t\t}\n", False))
+
+benign("processor-detector-local", "NewMotionProcessor builds the detector into a local first (no caching of its fields)",
+       (MP, "\treturn &MotionProcessor{\n\t\tparseFrame:        parseFrame,", "\tdetector := NewMotionDetector(*motionConf, recorderConf.PreviewSecs*c.FPS(), c)\n\treturn &MotionProcessor{\n\t\tparseFrame:        parseFrame,", False),
+       (MP, "\t\tmotionDetector:    NewMotionDetector(*motionConf, recorderConf.PreviewSecs*c.FPS(), c),", "\t\tmotionDetector:    detector,", False))
+
+benign("stop-notifies-listener-last", "stopRecording notifies the listener after the bookkeeping (same calls)",
+       (MP, "\tif mp.listener != nil {\n\t\tmp.listener.RecordingEnded()\n\t}\n\n\terr := mp.recorder.StopRecording()\n\n\tmp.framesWritten = 0\n\tmp.writeUntil = 0\n\tmp.isRecording = false\n\tmp.triggered = 0\n\t// if it starts recording again very quickly it won't write the same frames again\n\tmp.frameLoop.SetAsOldest()\n\n\treturn err",
+        "\terr := mp.recorder.StopRecording()\n\n\tmp.framesWritten = 0\n\tmp.writeUntil = 0\n\tmp.isRecording = false\n\tmp.triggered = 0\n\t// if it starts recording again very quickly it won't write the same frames again\n\tmp.frameLoop.SetAsOldest()\n\tif mp.listener != nil {\n\t\tmp.listener.RecordingEnded()\n\t}\n\n\treturn err", False))
+
 here = os.path.dirname(os.path.abspath(__file__))
 for f in os.listdir(os.path.join(here, "benign")):
     os.unlink(os.path.join(here, "benign", f))
